@@ -575,6 +575,82 @@ theorem header_write_reads_back (f : HeaderFields) (hp : Nat) (m : Nat → Nat) 
     intro hn
     exact rb _ _ hn
 
+/-! ## `[E]` and `str` allocated directly through `SlicePtrMeta` / `StrPtrMeta`
+
+`GcBuilder::<[E], M, SlicePtrMeta>::new_with_type_and_ptr_meta(len)` (and the `str` analogue) is
+the one path on which `SlicePtrMeta::layout` / `StrPtrMeta::layout` size the block — the crate's
+own slice / str constructors allocate through `SliceWithHeaderPtrMeta` and only re-label the
+pointer.  `sliceKind` / `strKind` are the models of those two impls
+(`SliceWithHeader::<(), E>::layout(len)`); harness families `dst slice-direct` / `dst str-direct`. -/
+
+/-- A `[E]` of length `len` allocated directly through `SlicePtrMeta` has room for all `len`
+    elements: the value layout is at least `len · size_of::<E>()` bytes at `E`'s alignment, and
+    every element `i < len` lies at an address aligned for `E`, behind the `GcHeader`, inside the
+    block the allocator handed out. -/
+theorem slice_direct_value_fits (maxSize word : Nat) (hdr e : Layout) (len : Nat) (p : Plan)
+    (block : Nat) (hmax : isPow2 (maxSize + 1) = true) (hw : IsTypeLayout maxSize ⟨word, word⟩)
+    (he : IsTypeLayout maxSize e) (hh : IsTypeLayout maxSize hdr)
+    (h : gcAlloc maxSize hdr (sliceKind maxSize word e) len = some p)
+    (hb : block % p.alloc.align = 0) :
+    e.size * len ≤ p.value.size ∧ p.value.align = e.align ∧
+      (∀ i, i < len →
+        (valuePtr block p + e.size * i) % e.align = 0 ∧
+        headerPtr hdr (valuePtr block p) + hdr.size ≤ valuePtr block p + e.size * i ∧
+        valuePtr block p + e.size * i + e.size ≤ block + p.alloc.size) := by
+  have hk : (sliceKind maxSize word e).Ok maxSize := sliceWithHeaderKind_ok hmax hw he
+  obtain ⟨hv, hva, _⟩ := value_aligned maxSize hdr _ len p block hk hh h hb
+  obtain ⟨_, _, d3, d4⟩ := disjoint maxSize hdr _ len p block hk hh h
+  have hs : sliceWithHeaderLayout maxSize unitLayout e len = some p.value := hv
+  obtain ⟨s1, _, _, _, _, s6⟩ := slice_layout_sound maxSize unitLayout e p.value len
+    (unitLayout_type maxSize) he hs
+  have hoff : sliceFieldOff unitLayout e = 0 := by
+    unfold sliceFieldOff roundUp unitLayout
+    rcases Nat.eq_zero_or_pos e.align with hz | hpos
+    · rw [hz]; simp
+    · simp only [Nat.zero_add]
+      rw [Nat.div_eq_of_lt (by omega), Nat.zero_mul]
+  have hea : 1 ≤ e.align := isPow2_pos he.1.1
+  have halign : p.value.align = e.align := by
+    rw [s1]; unfold unitLayout; exact Nat.max_eq_right hea
+  have hsize : e.size * len ≤ p.value.size := by
+    obtain ⟨l, _, hpad, hl, _⟩ := sliceWithHeaderLayout_eq_some he hs
+    rw [hpad, hl, hoff]
+    have := roundUp_ge (0 + e.size * len) (max unitLayout.align e.align)
+      (isPow2_pos (isPow2_max (unitLayout_type maxSize).1.1 he.1.1))
+    unfold padToAlign
+    simp only at this ⊢
+    omega
+  refine ⟨hsize, halign, fun i hi => ?_⟩
+  obtain ⟨a1, a2⟩ := s6 i hi
+  rw [hoff] at a1 a2
+  rw [halign] at hva
+  refine ⟨?_, by omega, by omega⟩
+  have h1 : e.align ∣ valuePtr block p := Nat.dvd_of_mod_eq_zero hva
+  have h2 : e.align ∣ e.size * i := by
+    have := Nat.dvd_of_mod_eq_zero a1
+    simpa using this
+  exact mod_zero_of_dvd_add h1 h2
+
+/-- A `str` of length `len` allocated directly through `StrPtrMeta` has room for its `len`
+    bytes, behind the `GcHeader` and inside the block. -/
+theorem str_direct_value_fits (maxSize word : Nat) (hdr : Layout) (len : Nat) (p : Plan)
+    (block : Nat) (hmax : isPow2 (maxSize + 1) = true) (hw : IsTypeLayout maxSize ⟨word, word⟩)
+    (hbyte : IsTypeLayout maxSize byteLayout) (hh : IsTypeLayout maxSize hdr)
+    (h : gcAlloc maxSize hdr (strKind maxSize word) len = some p)
+    (hb : block % p.alloc.align = 0) :
+    len ≤ p.value.size ∧
+      (∀ i, i < len →
+        headerPtr hdr (valuePtr block p) + hdr.size ≤ valuePtr block p + i ∧
+        valuePtr block p + i + 1 ≤ block + p.alloc.size) := by
+  obtain ⟨s1, _, s3⟩ := slice_direct_value_fits maxSize word hdr byteLayout len p block hmax hw
+    hbyte hh h hb
+  have hb1 : byteLayout.size = 1 := rfl
+  rw [hb1, Nat.one_mul] at s1
+  refine ⟨s1, fun i hi => ?_⟩
+  obtain ⟨_, a2, a3⟩ := s3 i hi
+  rw [hb1, Nat.one_mul] at a2 a3
+  exact ⟨a2, a3⟩
+
 /-! ## Non-vacuity: the hypotheses are satisfiable and the model computes the expected numbers -/
 
 /-- 64-bit target: `isize::MAX`, `GcHeader` = two words. -/
@@ -596,6 +672,11 @@ example : (declOrderFields 8).Fits ⟨16, 8⟩ := by decide
 example : readWord (((HeaderWrite.setColor 3).store (declOrderFields 8) 64 1000
       (writeCells (fun _ => 0) 1008 (wordBytes 8 0x100c))).run
       (writeCells (fun _ => 0) 1008 (wordBytes 8 0x100c))) 1008 8 = 0x100f := by decide
+
+/-- `[u32]` of length 5 allocated directly through `SlicePtrMeta`: 20 value bytes behind the
+    24-byte metadata + header prefix. -/
+example : gcAlloc (2 ^ 63 - 1) ⟨16, 8⟩ (sliceKind (2 ^ 63 - 1) 8 ⟨4, 4⟩) 5 =
+    some { alloc := ⟨44, 8⟩, valueOff := 24, mhl := ⟨24, 8⟩, value := ⟨20, 4⟩ } := by decide
 
 /-- A `u8` value: 16-byte header, value at offset 16, block of 17 bytes aligned 8. -/
 example : gcAlloc (2 ^ 63 - 1) ⟨16, 8⟩ (sizedKind ⟨1, 1⟩) 0 =
